@@ -36,6 +36,12 @@ func runC14(c *an.Ctx) {
 	r14h(c)
 	r14i(c)
 	r14j(c)
+	// round 7
+	r14k(c)
+	r14l(c)
+	passThrough(c, "R14n", "cacheproxy.GetDefaults/GetVars are plain pass-throughs to the wrapped service", []string{"GetDefaults", "GetVars"}, "a map kept by the proxy is handed to several environments, which write into it: values set by one environment show up in the others, at the rank of the configuration store")
+	r14o(c)
+	c.As(map[string]string{"R04j": "R14m"}, func() { r04j(c) })
 }
 
 // condsDependingOn: the control conditions of b (outside loop control) that are computed from v (or, when v is a
